@@ -92,8 +92,8 @@ class ST:
 class GEl:
     """global element: type=QName or anon=CT-like content"""
 
-    def __init__(self, name, type=None, content=None, attrs=()):
-        self.name, self.type, self.content, self.attrs = name, type, content, list(attrs)
+    def __init__(self, name, type=None, content=None, attrs=(), doc=None):
+        self.name, self.type, self.content, self.attrs, self.doc = name, type, content, list(attrs), doc
 
 
 class Schema:
@@ -217,10 +217,10 @@ class Schema:
             a = {}
             put(a, 'name', c.name)
             put(a, 'type', c.type)
-            kids = []
+            kids = self._doc(c.doc)          # xs:annotation comes first, before the type definition
             if c.content is not None or c.attrs:
                 fake = CT(None, c.content, c.attrs)
-                kids = [E(x + 'complexType', {}, self._ct_content(fake))]
+                kids = kids + [E(x + 'complexType', {}, self._ct_content(fake))]
             return E(x + 'element', a, kids)
         raise TypeError(c)
 
@@ -327,11 +327,11 @@ class Wsdl:
                 io.append(o if op.has_output is True else Opt(o, op.has_output))
             pops.append(E(w + 'operation', a, io))
 
-            def env(parts, headers):
+            def env(parts, headers, message=None):
                 ks = []
                 for h in headers:
                     ha = {'use': 'literal'}
-                    put(ha, 'message', op.input)
+                    put(ha, 'message', message if message is not None else op.input)
                     put(ha, 'part', h)
                     ks.append(E(so + 'header', ha))
                 ba = {'use': 'literal'}
@@ -344,7 +344,7 @@ class Wsdl:
             bk.append(E(so + 'operation', sa))
             bk.append(E(w + 'input', {}, env(op.body_parts, op.headers)))
             if op.output is not None:
-                o = E(w + 'output', {}, env(op.out_body_parts, op.out_headers))
+                o = E(w + 'output', {}, env(op.out_body_parts, op.out_headers, op.output))
                 bk.append(o if op.has_output is True else Opt(o, op.has_output))
             bops.append(E(w + 'operation', dict(a), bk))
         kids.append(E(w + 'portType', {'name': attr(self.port_type)}, pops))
